@@ -228,14 +228,24 @@ def predicate(h, rec):
         elif ob["exc"] not in (None, "ValueError", "NuclideStrError", "TypeError", "NotImplementedError"):
             bad.append(f"{where}: escaped with {ob['exc']}")
         if hp and exact_inputs(i) and h["units"] not in U.ACT:
-            if any(c[2] != "Rational" for c in ob["contents"]):
-                bad.append(f"{where}: a high-precision amount is no longer exact ({[c for c in ob['contents'] if c[2] != 'Rational'][0]})")
+            inexact = [c for c in ob["contents"] if c[2] in ("Float", "float", "float64", "float32")]
+            if inexact:
+                bad.append(f"{where}: a high-precision amount is no longer exact ({inexact[0]})")
     return bad
+
+
+def irrational_mass_names(names):
+    """nuclides whose exact (SymPy) atomic mass in the data set is an algebraic irrational produced by nsimplify"""
+    import os
+    import pickle_stub as ps
+    p = os.path.join(C.REPO, "radioactivedecay/icrp107_ame2020_nubase2020/atomic_masses_sympy_1.9.pickle")
+    asts = ps.load_vector(p)
+    return {names[i] for i, a in enumerate(asts) if ps.as_fraction(a) is None}
 
 
 def ops_stream(rng, nfloat, nhp, streams, viol, samples, tag="ops"):
     names, stable = U.dataset_names()
-    rational_mass_ok = [n for n in names if n not in ("Sm-146", "Cf-246", "Pd-96")]
+    rational_mass_ok = [n for n in names if n not in irrational_mass_names(names)]
     hs = [gen_history(rng, names, stable, False) for _ in range(nfloat)]
     hs += [gen_history(rng, rational_mass_ok, stable, True, maxops=6) for _ in range(nhp)]
     impl = U.run_impl("impl_ops.py", hs, timeout=3000)
